@@ -677,6 +677,7 @@ func c18NetPayload(c *core.Ctx, echo bool) []byte {
 
 // c18NetRun generates the real-socket cases.
 func c18NetRun(c *core.Ctx) {
+	c18ReplySizes(c)
 	hasV6 := c18HasV6()
 	c.Note("C18 sockets: IPv6 loopback available: %v", hasV6)
 	t0 := time.Now()
